@@ -490,7 +490,7 @@ func (c *Ctx) c03setsIn(f *ssa.Function, org func(ssa.Value) string) *c03Sets {
 			}
 			return ""
 		}
-		for _, de := range callsIn(f, "reflect.DeepEqual") {
+		for _, de := range c.equalityCalls(f) {
 			d := de.Common().Args
 			if s0, s1 := side(d[0], de), side(d[1], de); s0 != "" && s1 != "" && s0 != s1 {
 				if c.condAt(de.Value(), false, add.Block()) {
@@ -756,7 +756,7 @@ func ruleC03_6(c *Ctx) {
 	c.check(okB, R, fn, "(b) consumed only if the destination artifact dstPrefix+base exists", add.Pos(), "comma-ok lookup in the destination artifacts dominates Add", "an artifact is consumed without a corresponding destination artifact")
 	// (c) equal hashes
 	okC := false
-	for _, de := range callsIn(f, "reflect.DeepEqual") {
+	for _, de := range c.equalityCalls(f) {
 		a := de.Common().Args
 		o0, o1 := org(a[0]), org(a[1])
 		isSrc := func(o string) bool { return o == "p1{key(p2)}" }
